@@ -26,6 +26,23 @@ fn c14<H: Header>(ctx: &mut Ctx, a: usize, bytes: &[u8]) {
         Err(e) => mem_err(e),
     });
     ctx.ln("ref_from_slice", res_str(r));
+    // the same in two public steps: BytesRef::try_from, then ref_from_bytes
+    let r2 = guard(|| match multiboot2_common::BytesRef::<H>::try_from(g.slice()) {
+        Ok(b) => match DynSizedStructure::<H>::ref_from_bytes(b) {
+            Ok(d) => {
+                let hs = core::mem::size_of::<H>();
+                let off = g.off(d as *const _);
+                let plen = d.payload().len();
+                let sov = core::mem::size_of_val(d);
+                let hdr = unsafe { core::slice::from_raw_parts(d as *const _ as *const u8, hs) };
+                let payload = if plen <= (1 << 20) { hexs(d.payload()) } else { "TOO-LARGE".into() };
+                format!("VAL off={} plen={} sov={} hdr={} payload={}", off, plen, sov, hexs(hdr), payload)
+            }
+            Err(e) => mem_err(e),
+        },
+        Err(e) => mem_err(e),
+    });
+    ctx.ln("ref_from_bytes", res_str(r2));
 }
 
 pub fn run(ctx: &mut Ctx, dom: &str, a: &[Arg]) {
@@ -80,6 +97,22 @@ pub fn run(ctx: &mut Ctx, dom: &str, a: &[Arg]) {
                     x == ty,
                     ax == aty,
                     atx == ay
+                ),
+            );
+            ctx.ln(
+                "ne",
+                format!(
+                    "ty_ty={} id_id={} ty_id={} id_ty={} id_u32={} u32_id={} ty_u32={} u32_ty={} aid_aty={} aty_aid={}",
+                    tx != ty,
+                    ix != iy,
+                    tx != iy,
+                    ix != ty,
+                    ix != y,
+                    x != iy,
+                    tx != y,
+                    x != ty,
+                    ax != aty,
+                    atx != ay
                 ),
             );
         }
